@@ -84,7 +84,7 @@ def validate(chk: core.Check, items: List[Dict[str, Any]], shards: int = 8) -> T
             with open(pth, "w") as f:
                 for j, (n, r) in enumerate(part):
                     acc = items[n].get("accept")
-                    f.write(json.dumps({"id": j + 1, "toks": r["toks"], "ok": r["ok"], "err": r["err"], "tree": r["tree"],
+                    f.write(json.dumps({"id": j + 1, "text": r["text"], "toks": r["toks"], "ok": r["ok"], "err": r["err"], "tree": r["tree"],
                                         "accept": "na" if acc is None else ("yes" if acc else "no")}) + "\n")
             jobs.append(("Trace_Parser", PCFG.format(lo=lo, hi=hi), dict(env={"TRACE_FILE": str(pth)}, workers=2, timeout=3000, heap="3g")))
             index.append(("parser", [n for n, _ in part]))
